@@ -41,7 +41,7 @@ def pe(n):
         if isinstance(n.value, bool) or n.value is None:
             return ('const', n.value)
         if isinstance(n.value, (int, float)):
-            return ('num', float(n.value))
+            return ('num', type(n.value).__name__, float(n.value))      # the kind of the literal is part of the tree: 1e3 is a float
         if isinstance(n.value, str):
             return ('str', n.value)
         return ('const', repr(n.value))
@@ -248,7 +248,7 @@ def ne(n):
     if c == 'DeclThisVar':
         return dotted_to_expr(n.tokens)
     if c in ('Integer', 'Float'):
-        return ('num', num(n.tokens))
+        return ('num', 'int' if c == 'Integer' else 'float', num(n.tokens))
     if c in ('String', 'DocString'):
         return ('str', lit_str(n.tokens))
     if c == 'Truthy':
